@@ -3,6 +3,7 @@ import itertools
 import json
 
 from common import *
+import c18_net
 
 IMPORTS = "Cluster.Elect"
 
@@ -261,7 +262,7 @@ def run(chk):
     ok_proofs = chk.proofs()
     # if the proofs no longer check we intensify the search (DESIGN 2.7 c)
     factor = 1 if ok_proofs else 10
-    build = cargo_build(["eng_elect"])
+    build = cargo_build(["eng_elect", "eng_elect_net"])
     if not build["ok"]:
         ok, log = repo_builds_without_hooks()
         if not ok:
@@ -405,15 +406,21 @@ def run(chk):
                           f"correspondence E3:handler history differs at op #{first}\n" + desc, failing_input=False)
         if i == 5:
             chk.coverage["samples"].append(json.loads(desc))
-    chk.coverage["traces_validated_against_impl"] = nm + nr + nt + len(hcs)
+    # ---- two real NodeServers with several connections to each other (lib/c18_net.py)
+    n_net = c18_net.stage(chk, build, quick, factor, distinct)
+    if n_net is None:
+        return infrastructure_failure(chk.prop, "two-node election engine (eng_elect_net) did not complete")
+    chk.coverage["traces_validated_against_impl"] = nm + nr + nt + len(hcs) + n_net
     chk.coverage["distinct_nontrivial"] = len(distinct)
     chk.coverage["rule"] = ("mirror: all connection multisets of size <=3 over nonces {0,1,2}, both name orders, two id "
                             "layouts (exhaustive) + seeded random sets up to 8 connections; raw: random candidate lists; "
                             "table: random histories of the table operations; handler: histories through the real ConnectionAuthenticated "
                             "handler with never-authenticating intruder sessions, each also run with the intruders erased. non-trivial = at least 2 candidates / any table history; "
-                            "distinct = distinct case descriptions")
+                            "distinct = distinct case descriptions; two-node: 2-3 real NodeServers with 2-5 physical connections (simultaneous, repeated, mixed dials, "
+                            "a node with two peers), every interleaving of the four handshake phases of two connections (exhaustive, 6 layouts x 70) + seeded "
+                            "frame-level interleavings + one connection stalled before authenticating and released later; survivor predicted by elected_a/elected_b")
     chk.coverage["exhaustive_part"] = "connection multisets |cs|<=3, nonces in {0,1,2}"
-    return chk.finish(trusted_base=TRUSTED)
+    return chk.finish(trusted_base=TRUSTED + c18_net.TRUSTED_NET)
 
 
 TRUSTED = [
